@@ -167,4 +167,21 @@ def devStartFail (env : Env) (fail : List String) (c : Cat) (op : Op) (resp : Re
 
 def devStartFailOut (env : Env) (fail : List String) (c : Cat) (op : Op) : Cat := accept env fail c op
 
+/-! ### What an answer 500 leaves behind (create / update / delete / template create / delete) -/
+
+/-- The new ID of an update is taken by another task: the request is answered 500 before anything is written. -/
+def renameTaken (c : Cat) : Op → Bool
+  | .update id r => decide (updateId id r ≠ id) && (c.tasks (updateId id r)).isSome
+  | _ => false
+
+/-- The decidable clause: a request answered 500 leaves a partial effect iff its definition could be committed and
+the start it attempts is refused (start or batching). -/
+def leaves500 (env : Env) (fail : List String) (c : Cat) (op : Op) : Bool :=
+  devStartFail env fail c op .fail && !renameTaken c op
+
+/-- The catalogue after a request answered 500: inside the clause exactly the catalogue of the ACCEPTED request (the
+definition is stored, the task is enabled, `started` = false: not executing); outside it nothing changed. -/
+def effect500 (env : Env) (fail : List String) (c : Cat) (op : Op) : Cat :=
+  if leaves500 env fail c op then accept env fail c op else c
+
 end Kap.C14
